@@ -331,7 +331,14 @@ Definition lval (attrs : list attr) (vals : list value) (i : nat) : option value
 
 Lemma attr_wf_god a : attr_wf a = true -> kind_eqb (a_kind a) KGivenOrDerived = true -> a_value a = Some VUndef.
 Proof.
-  unfold attr_wf. intros H Hk. rewrite Hk in H. cbn [negb orb] in H. now apply opt_value_eqb_eq in H.
+  unfold attr_wf. intros H Hk. apply andb_true_iff in H as [H _]. rewrite Hk in H. cbn [negb orb] in H.
+  now apply opt_value_eqb_eq in H.
+Qed.
+
+Lemma attr_wf_constant a : attr_wf a = true -> a_kind a = KConstant -> exists v, a_value a = Some v.
+Proof.
+  unfold attr_wf. intros H Hk. apply andb_true_iff in H as [_ H]. rewrite Hk in H. cbn in H. unfold has_value in H.
+  destruct (a_value a); [eauto|discriminate].
 Qed.
 
 Lemma attr_wf_opt a : attr_wf a = true -> is_opt_attr a = has_value a.
